@@ -12,11 +12,13 @@ def tasks(tier, seed):
         ts = gen.nfa_src_tasks(2, "ab", 12)
         ts += [{"kind": "rnd_nfa", "count": 700, "seed": seed * 50 + i} for i in range(4)]
         ts += [{"kind": "big_nfa", "count": 12, "seed": seed * 50 + i} for i in range(4)]
+        ts += [{"kind": "wide_nfa", "count": 60, "seed": seed * 50 + i} for i in range(3)]
     else:
         ts = gen.nfa_src_tasks(2, "ab", 16)
         ts += gen.nfa_src_tasks(3, "a", 32, stride=5)
         ts += [{"kind": "rnd_nfa", "count": 2500, "seed": seed * 50 + i} for i in range(32)]
         ts += [{"kind": "big_nfa", "count": 25, "seed": seed * 50 + i} for i in range(16)]
+        ts += [{"kind": "wide_nfa", "count": 200, "seed": seed * 50 + i} for i in range(16)]
     return gen.spread(ts, hs)
 
 
